@@ -2,7 +2,7 @@
    The closure is evaluated on the implementation on every run (trace, then serialize the same
    samples with the traced schema, then decode = interp inside Coq: the C01 oracle); the tracer
    model is compared with the crate in the C07 run. *)
-From Verif Require Import Tracer Coerce Coerce_proofs Accept Accept_proofs CoerceTable CoerceTable_proofs TracerTablesSpec Null_proofs Struct_proofs.
+From Verif Require Import Tracer Coerce Coerce_proofs Accept Accept_proofs CoerceTable CoerceTable_proofs TracerTablesSpec Null_proofs Struct_proofs Project_proofs TableClosure.
 
 (* Full-strength statement (kept visible); Excluded = the three documented exclusions *)
 Definition C06_full (accepts : list SField -> list Value -> Prop) (Excluded : Opts -> list Value -> Prop) : Prop :=
@@ -72,8 +72,19 @@ Example C06_missing_field_example :
                    (Ok (TUnknown false)) = Ok (TStruct n m s fs) /\ map (fun f => (fname3 f, t_nullable (ftr3 f))) fs = [(b "a", false); (b "c", true); (b "b", true)].
 Proof. do 4 eexists. vm_compute. split; reflexivity. Qed.
 
+(* closure at every column of a table: for records whose values in column k are scalars (any presentation of the leaf alphabet), the
+   tracer of column k is a primitive whose builder accepts the serde call of EVERY value any record carries in that column
+   (builder_accepts: the method tables of the builders), at any nesting depth of the record position *)
+Theorem C06_table_column_accepts : forall o d SS n0 m s fs k tk lk fa v pr,
+  Forall (fun fa => NoDup (map fst fa)) SS -> (exists l, all_atoms o (vals k SS) = Some l) ->
+  trace_seq' o d (map VStruct SS) (Ok (TUnknown n0)) = Ok (TStruct n0 m s fs) ->
+  fget2 k fs = Some (tk, lk) -> In fa SS -> flookup k fa = Some v -> pres_of o v = Some pr ->
+  exists n q, tk = TPrim n q /\ builder_accepts q pr = true.
+Proof. exact table_column_accepts. Qed.
+
 Print Assumptions C06_leaf_accepts_partial.
 Print Assumptions C06_leaf_null_nullable_partial.
 Print Assumptions C06_coerce_arms_match_model.
 Print Assumptions C06_null_makes_nullable_nested.
 Print Assumptions C06_missing_field_is_nullable_nested.
+Print Assumptions C06_table_column_accepts.
